@@ -2,7 +2,8 @@
   Lemmas/IncentExactState — the exact accounting carried to the STORE: `strDistribute_core_eq`.
   One pass of x/streamer `Keeper.Distribute` (EndBlock: any budget; epoch end: unlimited) leaves, for every stream
   handed in,   distributed' + pendId(pointer') = distributed + pendId(pointer)   — EQUALITY (Lemmas/IncentBound has ≤),
-  provided every record names a live gauge (`LiveRec`) and the three stored pointers are resumable (`PtrsOK`).
+  provided every record names a live gauge (`LiveRec`) and the three stored pointers are resumable (`PtrsOKe`);
+  the pointers it stores are resumable again, and the unlimited pass of the epoch end leaves nothing pending.
 -/
 import DymVerif.Lemmas.IncentExactId
 namespace DymVerif.Incent
@@ -10,9 +11,12 @@ open DymVerif Coins
 
 /-- every stored epoch pointer is resumable w.r.t. the iterated list -/
 def PtrsOK (data : List SView) (ps : List Pointer) : Prop := ∀ e, PtrOK data (ps.getD e Pointer.last)
+def PtrsOKe (data : List SView) (ps : List Pointer) : Prop := ∀ e, PtrOKe data e (ps.getD e Pointer.last)
+
+theorem PtrsOKe.ok {data : List SView} {ps : List Pointer} (h : PtrsOKe data ps) : PtrsOK data ps := fun e => (h e).ok
 
 theorem getD_set_cases (ps : List Pointer) (e e' : Nat) (p' : Pointer) :
-    (ps.set e p').getD e' Pointer.last = p' ∨ (ps.set e p').getD e' Pointer.last = ps.getD e' Pointer.last := by
+    ((ps.set e p').getD e' Pointer.last = p' ∧ e = e') ∨ (ps.set e p').getD e' Pointer.last = ps.getD e' Pointer.last := by
   by_cases he : e = e'
   · subst he
     by_cases hl : e < ps.length
@@ -25,8 +29,8 @@ theorem getD_set_cases (ps : List Pointer) (e e' : Nat) (p' : Pointer) :
     rw [List.getElem?_set_ne he]
 
 /-- the pointer loop only stores pointers it can resume from -/
-theorem ptrLoop_ptrsOK (s : State) (maxOps : Nat) : ∀ (es : List Nat) (total : Nat) (c : Caches) (ps : List Pointer), GoodCache c →
-    PtrsOK (c.streams.map Stream.view) ps → PtrsOK (c.streams.map Stream.view) (ptrLoop s maxOps es total c ps).2.2 := by
+theorem ptrLoop_ptrsOKe (s : State) (maxOps : Nat) : ∀ (es : List Nat) (total : Nat) (c : Caches) (ps : List Pointer), GoodCache c →
+    PtrsOKe (c.streams.map Stream.view) ps → PtrsOKe (c.streams.map Stream.view) (ptrLoop s maxOps es total c ps).2.2 := by
   intro es
   induction es with
   | nil => intro total c ps _ h; exact h
@@ -43,11 +47,11 @@ theorem ptrLoop_ptrsOK (s : State) (maxOps : Nat) : ∀ (es : List Nat) (total :
       rw [hit] at g1 hpt ⊢
       simp only at g1 hpt ⊢
       have hv := view_of_grown g1
-      have hp' : PtrsOK (c'.streams.map Stream.view) (ps.set e p') := by
+      have hp' : PtrsOKe (c'.streams.map Stream.view) (ps.set e p') := by
         intro e'
         rw [hv]
-        rcases getD_set_cases ps e e' p' with h | h
-        · rw [h, hpt]; exact ptrOK_ptrOf _ e hgc.sortedData _
+        rcases getD_set_cases ps e e' p' with ⟨h, he⟩ | h
+        · rw [h, hpt, ← he]; exact ptrOKe_ptrOf _ e hgc.sortedData _
         · rw [h]; exact hp e'
       have := ih (total + iters) c' (ps.set e p') (hgc.of_grown g1) hp'
       rw [hv] at this
@@ -67,31 +71,108 @@ theorem ptrLoop_exact_id (s : State) (maxOps : Nat) (es : List Nat) (total : Nat
     Grown c (ptrLoop s maxOps es total c ps).2.1 ∧
     ∀ k, k < c.streams.length → ∀ i, Qv (ptrLoop s maxOps es total c ps).2.1 (ptrLoop s maxOps es total c ps).2.2 k i = Qv c ps k i := by
   obtain ⟨g1, g2⟩ := ptrLoop_exact s maxOps es total c ps hgc hlive
-  have hp' := ptrLoop_ptrsOK s maxOps es total c ps hgc hp
   refine ⟨g1, ?_⟩
   intro k hk i
   have hk' : k < (ptrLoop s maxOps es total c ps).2.1.streams.length := by rw [g1.1]; exact hk
   rw [Qv_eq_QR c ps hgc k hk (hp _) i, ← g2 k hk i]
   apply Qv_eq_QR _ _ (hgc.of_grown g1) k hk'
   rw [view_of_grown g1]
-  exact hp' _
+  -- the pointers the loop stores are resumable (or untouched)
+  have : ∀ (es : List Nat) (total : Nat) (c : Caches) (ps : List Pointer), GoodCache c → PtrsOK (c.streams.map Stream.view) ps →
+      PtrsOK (c.streams.map Stream.view) (ptrLoop s maxOps es total c ps).2.2 := by
+    intro es
+    induction es with
+    | nil => intro total c ps _ h; exact h
+    | cons e rest ih =>
+      intro total c ps hgc hp
+      unfold ptrLoop
+      by_cases hb : total ≥ maxOps
+      · rw [if_pos hb]; exact hp
+      · rw [if_neg hb]
+        simp only
+        have g1 := (iterate_window s e (ps.getD e Pointer.last) (maxOps - total) c hgc).1
+        have hpt := iterate_ptr (c.streams.map Stream.view) e (ps.getD e Pointer.last) (maxOps - total) (rewardsCb s) c
+        obtain ⟨p', iters, c', hit⟩ : ∃ p' iters c', iterateEpochPointer (c.streams.map Stream.view) e (ps.getD e Pointer.last) (maxOps - total) (rewardsCb s) c = (p', iters, c') := ⟨_, _, _, rfl⟩
+        rw [hit] at g1 hpt ⊢
+        simp only at g1 hpt ⊢
+        have hv := view_of_grown g1
+        have hp' : PtrsOK (c'.streams.map Stream.view) (ps.set e p') := by
+          intro e'
+          rw [hv]
+          rcases getD_set_cases ps e e' p' with ⟨h, _⟩ | h
+          · rw [h, hpt]; exact ptrOK_ptrOf _ e hgc.sortedData _
+          · rw [h]; exact hp e'
+        have := ih (total + iters) c' (ps.set e p') (hgc.of_grown g1) hp'
+        rw [hv] at this
+        exact this
+  exact this es total c ps hgc hp _
+
+/-- the weight the callback reports for an item: the number of qualifying locks of the gauge (or 1) -/
+theorem rewardsCb_weight_le (s : State) (c : Caches) (v : SView) (r : Rec) : (rewardsCb s c v r).2 ≤ s.locks.length + 1 := by
+  have hnum : ∀ g, gaugeLockNum s g ≤ s.locks.length + 1 := by
+    intro g
+    unfold gaugeLockNum
+    cases hk : g.kind with
+    | asset d du =>
+      simp only
+      unfold gaugeLocks
+      rw [hk]
+      simp only
+      split
+      · simp
+      · exact Nat.le_trans (List.length_filter_le _ _) (Nat.le_succ _)
+    | rollapp r => simp
+  unfold rewardsCb
+  repeat' (first | split | dsimp only)
+  all_goals first | exact Nat.zero_le _ | exact hnum _
+
+/-- the unlimited pass of the epoch end (budget 2^64-1, one epoch identifier) leaves nothing to be visited -/
+theorem ptrLoop_flush_done (s : State) (e : Nat) (c : Caches) (ps : List Pointer) (hgc : GoodCache c)
+    (hM : (s.locks.length + 1) * totalRecs (c.streams.map Stream.view) < maxU64) :
+    remaining (c.streams.map Stream.view) e ((ptrLoop s maxU64 [e] 0 c ps).2.2.getD e Pointer.last) = [] := by
+  have hsd := hgc.sortedData
+  have hlast : remaining (c.streams.map Stream.view) e Pointer.last = [] := by
+    unfold remaining; exact visits_invalid _ e _ (newIter_last _ e hsd)
+  unfold ptrLoop
+  have h0 : ¬ (0 ≥ maxU64) := by decide
+  rw [if_neg h0]
+  simp only
+  have hun := (iterate_unlimited (c.streams.map Stream.view) e hsd (ps.getD e Pointer.last) (maxU64 - 0) (s.locks.length + 1)
+    (rewardsCb s) c (fun acc sv r => rewardsCb_weight_le s acc sv r) (by simpa using hM)).2
+  obtain ⟨p', iters, c', hit⟩ : ∃ p' iters c', iterateEpochPointer (c.streams.map Stream.view) e (ps.getD e Pointer.last) (maxU64 - 0) (rewardsCb s) c = (p', iters, c') := ⟨_, _, _, rfl⟩
+  rw [hit] at hun ⊢
+  simp only at hun ⊢
+  unfold ptrLoop
+  simp only
+  by_cases hl : e < ps.length
+  · have : (ps.set e p').getD e Pointer.last = p' := by simp [List.getD_eq_getElem?_getD, hl]
+    rw [this]; exact hun
+  · have : (ps.set e p').getD e Pointer.last = Pointer.last := by
+      rw [List.getD_eq_getElem?_getD, List.getElem?_eq_none (by rw [List.length_set]; omega)]; rfl
+    rw [this]; exact hlast
 
 /-- what `strDistribute_core_eq` establishes: the values written are the cached ones, every stream handed in is
-    cached, and each cached value is the stored stream with `distributed + pending` unchanged -/
-def CoreEq (s : State) (streams : List Stream) (ee : Bool) (s' : State) : Prop :=
+    cached, each cached value is the stored stream with `distributed + pending` unchanged, the stored pointers are
+    resumable, the epoch-end pass leaves nothing to visit, the active list loses exactly the finished streams -/
+def CoreEq (s : State) (es : List Nat) (streams : List Stream) (maxOps : Nat) (ee : Bool) (s' : State) : Prop :=
   ∃ c : Caches,
     (∀ v ∈ c.streams, getS s'.streams v.id = some (finVal ee v)) ∧
     (∀ x ∈ streams.map (·.id), ∃ v ∈ c.streams, v.id = x) ∧
     (∀ v ∈ c.streams, ∃ st0, getS s.streams v.id = some st0 ∧ v = { st0 with distributed := v.distributed } ∧
         ∀ i, amt v.distributed i + pendId (s'.ptrs.getD v.epochId Pointer.last) v i
-              = amt st0.distributed i + pendId (s.ptrs.getD st0.epochId Pointer.last) st0 i)
+              = amt st0.distributed i + pendId (s.ptrs.getD st0.epochId Pointer.last) st0 i) ∧
+    PtrsOKe ((sortById streams).map Stream.view) s'.ptrs ∧
+    (∀ e, e ≤ 2 → es = [e] → maxOps = maxU64 → (s.locks.length + 1) * totalRecs ((sortById streams).map Stream.view) < maxU64 →
+      remaining ((sortById streams).map Stream.view) e (s'.ptrs.getD e Pointer.last) = []) ∧
+    (∀ x, x ∈ s'.active.ids ↔ x ∈ s.active.ids ∧ ∀ v ∈ c.streams, v.id = x → ¬ gone ee v) ∧
+    s'.streams.length = s.streams.length
 
 theorem strDistribute_core_eq (s : State) (es : List Nat) (streams : List Stream) (maxOps : Nat) (ee : Bool) (s' : State)
     (hg : GInv s) (hs : SStruct s) (hin : GoodInput s streams)
     (hst : ∀ st ∈ streams, StrictInc (st.recs.map (·.gauge)) ∧ st.id < maxU64)
     (hlive : ∀ st ∈ streams, ∀ r ∈ st.recs, LiveRec s r)
-    (hptr : PtrsOK ((sortById streams).map Stream.view) s.ptrs)
-    (h : strDistribute s es streams maxOps ee = .ok s') : CoreEq s streams ee s' := by
+    (hptr : PtrsOKe ((sortById streams).map Stream.view) s.ptrs)
+    (h : strDistribute s es streams maxOps ee = .ok s') : CoreEq s es streams maxOps ee s' := by
   have hin0 := hin
   have hin := sortById_good s streams hin
   unfold strDistribute at h
@@ -110,12 +191,22 @@ theorem strDistribute_core_eq (s : State) (es : List Nat) (streams : List Stream
         obtain ⟨st, hst, he⟩ := List.mem_map.1 hx
         rw [← he]; unfold sExtra storedDist; rw [(hin.2 st hst).1]; simp⟩, rfl⟩
   have hlive0 : LiveC s ⟨sortById streams, [], []⟩ := fun st hm r hr => hlive st ((mem_sortById streams st).1 hm) r hr
-  have hwin := ptrLoop_exact_id s maxOps (sortByDuration es) 0 ⟨sortById streams, [], []⟩ s.ptrs hgc0 hlive0 hptr
+  have hwin := ptrLoop_exact_id s maxOps (sortByDuration es) 0 ⟨sortById streams, [], []⟩ s.ptrs hgc0 hlive0 hptr.ok
+  have hpk := ptrLoop_ptrsOKe s maxOps (sortByDuration es) 0 ⟨sortById streams, [], []⟩ s.ptrs hgc0 hptr
+  have hfl : ∀ e, e ≤ 2 → es = [e] → maxOps = maxU64 → (s.locks.length + 1) * totalRecs ((sortById streams).map Stream.view) < maxU64 →
+      remaining ((sortById streams).map Stream.view) e
+        ((ptrLoop s maxOps (sortByDuration es) 0 ⟨sortById streams, [], []⟩ s.ptrs).2.2.getD e Pointer.last) = [] := by
+    intro e he h1 h2 h3
+    subst h1; subst h2
+    have : sortByDuration [e] = [e] := by
+      have : e = 0 ∨ e = 1 ∨ e = 2 := by omega
+      rcases this with a | a | a <;> (subst a; decide)
+    rw [this]; exact ptrLoop_flush_done s e ⟨sortById streams, [], []⟩ s.ptrs hgc0 h3
   have hpo : ∀ e', e' ∉ es → (ptrLoop s maxOps (sortByDuration es) 0 ⟨sortById streams, [], []⟩ s.ptrs).2.2.getD e' Pointer.last = s.ptrs.getD e' Pointer.last :=
     fun e' he' => ptrLoop_ptrs_other s maxOps e' _ _ _ _ (fun hm => he' (mem_sortByDuration es e' hm))
-  generalize ptrLoop s maxOps (sortByDuration es) 0 ⟨sortById streams, [], []⟩ s.ptrs = res at h hci hsci hwin hpo
+  generalize ptrLoop s maxOps (sortByDuration es) 0 ⟨sortById streams, [], []⟩ s.ptrs = res at h hci hsci hwin hpo hpk hfl
   obtain ⟨tot, c, ps⟩ := res
-  dsimp only at h hci hsci hwin hpo
+  dsimp only at h hci hsci hwin hpo hpk hfl
   obtain ⟨ci1, ci2, ci3⟩ := hci
   obtain ⟨⟨sc1, sc2, sc3⟩, sc4⟩ := hsci
   obtain ⟨wg, wq⟩ := hwin
@@ -126,7 +217,7 @@ theorem strDistribute_core_eq (s : State) (es : List Nat) (streams : List Stream
     · intro hm; obtain ⟨y, hy, he⟩ := List.mem_map.1 hm; rw [← he]; exact List.mem_map_of_mem (f := (·.id)) ((mem_sortById streams y).1 hy)
     · intro hm; obtain ⟨y, hy, he⟩ := List.mem_map.1 hm; rw [← he]; exact List.mem_map_of_mem (f := (·.id)) ((mem_sortById streams y).2 hy)
   have key : ∀ b : Bank, (∀ i, amt (b.get incAddr) i = amt (s.bank.get incAddr) i + amt c.distributed i) →
-      ∀ s2, incDistribute { s with ptrs := ps, bank := b } c.gauges ee = .ok s2 → saveStreams ee c.streams s2 = .ok s' → CoreEq s streams ee s' := by
+      ∀ s2, incDistribute { s with ptrs := ps, bank := b } c.gauges ee = .ok s2 → saveStreams ee c.streams s2 = .ok s' → CoreEq s es streams maxOps ee s' := by
     intro b hb1 s2 hinc hsave
     obtain ⟨_, _, r3, _, _, _, _⟩ := incDistribute_spec { s with ptrs := ps, bank := b } c.gauges ee s2
       hg.ids hg.bounded ci1 ci2
@@ -149,7 +240,7 @@ theorem strDistribute_core_eq (s : State) (es : List Nat) (streams : List Stream
       have := saveStreams_same ee _ _ _ hsave
       -- `now` is not part of `Same`; it is untouched by construction
       exact saveStreams_now ee _ _ _ hsave
-    refine ⟨c, q4, ?_, ?_⟩
+    refine ⟨c, q4, ?_, ?_, by rw [q1, e4]; exact hpk, by rw [q1, e4]; exact hfl, by intro x; rw [q5 x, e2], by rw [q2, e1]⟩
     · intro x hx
       have : x ∈ c.streams.map (·.id) := by rw [sc4]; exact (hidmem x).2 hx
       obtain ⟨v, hv, he⟩ := List.mem_map.1 this
